@@ -16,6 +16,8 @@ ALL_PROPS = ["C%02d" % i for i in range(1, 21)]
 VERUS_UNITS = {
     "backend": ("units_backend", ["C02", "C03", "C04", "C05", "C07", "C09", "C20", "C01"]),
     "frontend": ("units_frontend", ["C01", "C02", "C03", "C06", "C07", "C10"]),
+    "proxy": ("units_proxy", ["C18", "C06", "C07", "C10", "C09", "C01"]),
+    "misc": ("units_misc", ["C08", "C13", "C14", "C15", "C19", "C05"]),
 }
 # which units to run for a property
 VERUS_FOR = {}
@@ -51,13 +53,12 @@ def kani_harnesses():
             if not os.path.exists(p):
                 continue
             txt = open(p).read()
-            for m in re.finditer(r'#\[kani::proof\]\s*(?:#\[kani::[^\]]*\]\s*)*fn\s+((?:c\d\d_)+\w+)', txt):
-                name = m.group(1)
+            names = re.findall(r'\bfn\s+((?:c\d\d_)+\w+)\s*\(\s*\)', txt) + re.findall(r'extract_harness!\(\s*((?:c\d\d_)+\w+)', txt)
+            for name in names:
                 props = ["C" + x for x in re.findall(r'c(\d\d)_', re.match(r'((?:c\d\d_)+)', name).group(1))]
                 props += KANI_ALSO.get(name, [])
-                attrs = txt[m.start():m.end()]
                 out[name] = dict(group=grp, file=hfile, src=src, props=sorted(set(props)),
-                                 bounded=name.endswith("_bounded") or "kani::unwind" in attrs,
+                                 bounded=name.endswith("_bounded") or "_bounded_" in name,
                                  thorough_only=name.endswith("_thorough") or "_thorough_" in name)
     return out
 
